@@ -117,16 +117,17 @@ theorem subtree_complete_of_done (g : Graph) (c : Cont) (k : Nat) (sub : String)
   · exact h
   · exact List.mem_append.mpr (Or.inl h)
 
-/-- **the hierarchy is a finite forest whenever child keys grow** (`GrowingKids`, decidable; nodes are
+/-- **the hierarchy is a finite forest whenever child keys grow** (`GrowingKids`, decidable, over the entities `P` of the hierarchy — link lists
+that are also called `sources` do not count; nodes are
 keyed in creation order and a section / source is created inside its parent): the collection loop of
 `find_sections` / `find_sources`, which keeps no visited set, ends, and run to its end it hands every
 entity at or below the deleted one to `delete_all`. Partial with respect to `subtree_complete`: the
 fuel that suffices is shown to exist, not to be below `|nodes|² + 1`. -/
-theorem subtree_finite_of_growing (g : Graph) (sub : String) (B : Nat) (h : GrowingKids g sub B)
-    (k : Nat) (hk : k < B) :
+theorem subtree_finite_of_growing (g : Graph) (sub : String) (B : Nat) (P : Nat → Bool)
+    (h : GrowingKids g sub B P) (k : Nat) (hk : k < B) (hp : P k = true) :
     (∃ n, ForestSize g sub [k] n) ∧
     ∃ fuel, bfsRest g sub fuel [k] = [] ∧ ∀ d, Desc g sub k d → d ∈ bfsKeys g sub fuel [k] [] :=
-  ⟨forest_of_growing g sub B h [k] (by simpa using hk), bfs_ends_of_growing g sub B h k hk⟩
+  ⟨forest_of_growing g sub B P h [k] (by simpa using ⟨hk, hp⟩), bfs_ends_of_growing g sub B P h k hk hp⟩
 
 /-- … and nothing but the subtree is handed over (no assumption) -/
 theorem subtree_sound (g : Graph) (c : Cont) (k d : Nat) (h : d ∈ delKeys g c k) : InSub g c k d :=
@@ -448,7 +449,9 @@ example : ForestSize demo2 "sections" [4] 3 := by
   have h6 : ForestSize demo2 "sections" [6] 2 := .cons 6 [] 1 0 (k6 ▸ h8) .nil
   exact .cons 4 [] 2 0 (k4 ▸ h6) .nil
 /-- the hypothesis of `subtree_finite_of_growing` holds of that file, for sections and for sources -/
-example : GrowingKids demo2 "sections" demo2.nextKey ∧ GrowingKids demo2 "sources" demo2.nextKey ∧ 4 < demo2.nextKey := by
+example : GrowingKids demo2 "sections" demo2.nextKey (fun k => kindOf demo2 k == "section") ∧
+    GrowingKids demo2 "sources" demo2.nextKey (fun k => kindOf demo2 k == "source") ∧
+    4 < demo2.nextKey ∧ (kindOf demo2 4 == "section") = true := by
   decide +kernel
 /-- `y` lies below `s`, and it is handed to `delete_all` when `s` is deleted -/
 example : Desc demo2 "sections" 4 8 :=
